@@ -25,6 +25,10 @@ type Step struct {
 	Key    string // canonical key of the resulting state ("" = do not expand, e.g. after a violation)
 	Size   int    // size of the resulting state (for the bound)
 	Expand bool
+	// Rejected: the operation failed by design (a documented panic) and left the state as it was. The search
+	// then applies every operation once more AFTER the rejected one (the path ends with it), without expanding:
+	// a call that fails must not leave anything behind for the next one (a lock, a half-done update, a scratch value).
+	Rejected bool
 }
 
 // Search describes one explicit-state search.
@@ -78,6 +82,14 @@ func (s *Search[O]) Run(r *engine.Rec) {
 			st := s.Exec(n.path, op)
 			r.Transitions++
 			r.Evals++
+			if st.Rejected {
+				after := append(append([]O(nil), n.path...), op)
+				for _, op2 := range s.Ops(n.size) {
+					s.Exec(after, op2)
+					r.Transitions++
+					r.Evals++
+				}
+			}
 			if st.Key == "" || !st.Expand || st.Size > s.MaxSize {
 				continue
 			}
